@@ -38,7 +38,7 @@ def toResO (tl : Bool) : EStateM.Result Exn World Outcome → Res × World
 
 /-- Run one call from world `w` (trace reset, components and clock kept). -/
 def runEntry (cfg : Cfg) (e : Entry) (w : World) : Res × World :=
-  let w := { w with trace := [] }
+  let w := { w with trace := [], timeline := [], opCalls := 0 }
   match e with
   | .call => toRes ((Retry.runCall cfg).run w)
   | .execute => toResO cfg.timeline ((Retry.runExecute cfg).run w)
